@@ -24,6 +24,9 @@
      "wreset"     conn.WritePacket(pkt) whose socket write fails with *net.OpError{ECONNRESET},
      "wclosed"    ... with *net.OpError{net.ErrClosed}; the read loop is parked (auto reading
                   off), so only closeOnWriteErr can close the connection
+     "ctxcancel"  the context given to NewMinecraftConn is cancelled: Closed(c) turns true (the
+                  connection context is its child) although nothing has closed the connection;
+                  whatever ends it afterwards (read loop, Close) must still tear it down
      "switch"     conn.SetActiveSessionHandler(reg, h_t): installs a second counting handler
                   (-- gate sh.switch.installed --), then calls its Activated()
      "switchw"    the same with a handler whose Activated() writes a packet (like "write":
@@ -73,10 +76,11 @@ SeqsUpTo(n, set) == IF n = 0 THEN {<<>>}
                     ELSE SeqsUpTo(n - 1, set) \cup
                          {Append(s, k) : s \in {x \in SeqsUpTo(n - 1, set) : Len(x) = n - 1}, k \in set}
 FaultsAll3 == SeqsUpTo(3, PanicKinds \cup {"none"})
-KindsAll == {"close", "unknown", "closewith", "write", "eof", "switch", "switchw", "wreset", "wclosed"}
+KindsAll == {"close", "unknown", "closewith", "write", "eof", "switch", "switchw", "wreset", "wclosed",
+             "ctxcancel"}
 Handlers == Threads \cup {"h0"}
 WriteLike(k) == k \in {"write", "switchw", "wreset", "wclosed"}
-NotCloser(k) == k \in {"write", "switch", "switchw", "wreset", "wclosed"}
+NotCloser(k) == k \in {"write", "switch", "switchw", "wreset", "wclosed", "ctxcancel"}
 KindsEof == {"eof"}
 
 Init == /\ kind \in {f \in [Threads -> Kinds] : Cardinality({t \in Threads : f[t] = "eof"}) <= 1}
@@ -96,13 +100,13 @@ Ret(t, r) == res' = [res EXCEPT ![t] = r]
 CloserReturned == \E t \in Threads :
                      /\ pc[t] = "done"
                      /\ IF WriteLike(kind[t]) THEN res[t] = "err"
-                        ELSE kind[t] # "switch" /\ res[t] # ""
+                        ELSE kind[t] \notin {"switch", "ctxcancel"} /\ res[t] # ""
 
 HasPanic(s) == \E i \in 1..Len(s) : s[i] \in PanicKinds
 
 \* from the call up to the first gate (closeKnown entry), or straight to the return
 Start(t) ==
-    /\ pc[t] = "start" /\ alive
+    /\ pc[t] = "start" /\ alive /\ kind[t] # "ctxcancel"
     /\ CASE kind[t] \in {"close", "unknown"} ->
               Go(t, "enter") /\ UNCHANGED <<res, peerGone, alive, lateOk>>
          [] kind[t] = "closewith" ->
@@ -134,6 +138,13 @@ Start(t) ==
               /\ Go(t, "enter") /\ UNCHANGED <<res, lateOk>>
     /\ active' = (IF kind[t] \in {"switch", "switchw"} THEN t ELSE active)
     /\ UNCHANGED <<kind, faults, closeFails, torn, inside, onceDone, cancelled, teardowns>>
+
+\* the parent context is cancelled: only Closed(c) changes
+CtxCancel(t) ==
+    /\ pc[t] = "start" /\ alive /\ kind[t] = "ctxcancel"
+    /\ cancelled' = TRUE
+    /\ Go(t, "done") /\ Ret(t, "ok")
+    /\ UNCHANGED <<kind, faults, closeFails, active, torn, inside, onceDone, peerGone, teardowns, alive, lateOk>>
 
 \* handler.Activated() of the freshly installed handler
 Activate(t) ==
@@ -168,7 +179,7 @@ Body(t) ==
     /\ Go(t, "done") /\ Ret(t, IF WriteLike(kind[t]) \/ closeFails THEN "err" ELSE "ok")
     /\ UNCHANGED <<kind, faults, closeFails, active, peerGone, alive, lateOk>>
 
-Next == \E t \in Threads : Start(t) \/ Activate(t) \/ Once(t) \/ Body(t)
+Next == \E t \in Threads : Start(t) \/ CtxCancel(t) \/ Activate(t) \/ Once(t) \/ Body(t)
 
 Spec == Init /\ [][Next]_vars
 
@@ -186,7 +197,11 @@ LaterWritesClosed == ~lateOk
 
 \* at quiescence: torn down exactly once if anything closed it
 ExactlyOnce ==
-    Quiescent => teardowns = (IF \E t \in Threads : ~NotCloser(kind[t]) \/ res[t] = "err" THEN 1 ELSE 0)
+    Quiescent => teardowns = (IF \E t \in Threads :
+                                     \/ kind[t] \in {"close", "unknown", "eof"}
+                                     \/ kind[t] = "closewith" /\ res[t] # "closed"   \* else it only saw Closed(c)
+                                     \/ WriteLike(kind[t]) /\ res[t] = "err"
+                                THEN 1 ELSE 0)
 
 \* per connection = summed over every handler that was ever installed
 PerConnection == teardowns = torn["h0"] + torn["t1"] + (IF "t2" \in Threads THEN torn["t2"] ELSE 0)
